@@ -205,6 +205,17 @@ func (h *HostInfo) connectAddressLocked() (net.IP, string) {
 // It's either `broadcast_address` if host info is read from system.local or `peer` if read from system.peers.
 // This IP address is also part of CQL Event emitted on topology/status changes,
 // but does not uniquely identify the node in case multiple nodes use the same IP address.
+// eventAddress is the address by which the cluster names this host in status and
+// topology events: its rpc (native transport) address as reported in the system
+// tables. Hosts that were not read from the system tables fall back to their
+// node-to-node address.
+func (h *HostInfo) eventAddress() net.IP {
+	if rpc := h.RPCAddress(); validIpAddr(rpc) {
+		return rpc
+	}
+	return h.nodeToNodeAddress()
+}
+
 func (h *HostInfo) nodeToNodeAddress() net.IP {
 	h.mu.RLock()
 	defer h.mu.RUnlock()
